@@ -296,6 +296,15 @@ def point_set(spec):
         pts = np.clip(pts, 0.001, 0.999)
     elif kind == 'halo':     # a dense core inside a broad sparse halo, with a large minimum cluster size: the top-up path
         pts = np.vstack([blob(0.5, 0.02, 3 * n_min), np.clip(rng.normal(0.5, 0.12, (max(n_dim + 3, (2 * n_min) // 3), n_dim)), 0.001, 0.999)])
+    elif kind == 'tiny':     # two separated clusters at a scale where volumes are far outside the range of exp() (log V ~ -750)
+        def ball(n):
+            v = rng.normal(size=(n, n_dim))
+            v /= np.linalg.norm(v, axis=1)[:, None]
+            return v * rng.random(n)[:, None] ** (1.0 / n_dim)
+        r = 2.6e-55
+        a, b = r * ball(25 * n_min), r * ball(25 * n_min)          # around the origin: this set is used with unit=False
+        b[:, 0] += 1e5 * r
+        pts = np.vstack([a, b])
     elif kind == 'random':
         k = int(rng.integers(1, 5))
         parts = []
@@ -326,7 +335,7 @@ def subtree(task):
         return []
     cls = Ellipsoid if member == 'E' else UnitCubeEllipsoidMixture
     letters = [l for l in LETTERS if not (l == 'S0' and member != 'E')]
-    u0 = um.ObsUnion.compute(pts, n_points_min=n_min, bound_class=cls, rng=np.random.default_rng(seed))
+    u0 = um.ObsUnion.compute(pts, n_points_min=n_min, bound_class=cls, rng=np.random.default_rng(seed), unit=(kind != 'tiny'))
     header = 'union %d %d %d fixed' % (n_dim, n_min, len(pts))
     records = []
 
@@ -359,14 +368,15 @@ def run(chk):
              ('three', 2, 5, 300 + s, 'E'), ('two', 3, 6, 400 + s, 'M'), ('three', 2, 5, 500 + s, 'M'),
              ('discs', 2, 5, 900 + s, 'E'), ('discs', 2, 4, 901 + s, 'M'), ('bigdiscs', 2, 5, 920 + s, 'E'), ('sparse_dense', 2, 5, 910 + s, 'E'),
              ('sparse_dense', 2, 6, 911 + s, 'E'), ('sparse_dense', 3, 5, 912 + s, 'M'),
-             ('halo', 2, 30, 930 + s, 'E'), ('halo', 3, 40, 931 + s, 'M'), ('halo', 2, 52, 932 + s, 'E')]
+             ('halo', 2, 30, 930 + s, 'E'), ('halo', 3, 40, 931 + s, 'M'), ('halo', 2, 52, 932 + s, 'E'),
+             ('tiny', 6, 12, 940 + s, 'E')]
     specs += [('random', 2, int(4 + (j % 3)), 1000 + 10 * s + j, 'E' if j % 3 else 'M') for j in range(6)]
     if chk.tier == 'thorough':
         specs += [('four', 2, 4, 600 + s, 'E'), ('uneven', 2, 7, 29 + s, 'M'), ('one', 4, 8, 700 + s, 'E'),
                   ('four', 3, 5, 800 + s, 'M')]
     tasks = []
     for spec in specs:
-        d = depth if spec[0] not in ('four', 'bigdiscs', 'halo') else depth - 1
+        d = depth if spec[0] not in ('four', 'bigdiscs', 'halo', 'tiny') else depth - 1
         for l in LETTERS:
             if l == 'S0' and spec[4] != 'E':
                 continue
